@@ -49,22 +49,24 @@ def b64Val (c : UInt8) : Option Nat :=
   else if n = 47 then some 63
   else none
 
-/-- Groups of four after CR/LF were removed. -/
+/-- Groups of four after CR/LF were removed: `xx==` and `xxx=` only as the final group; everything
+    else must be four alphabet characters. -/
 def b64DecGroups : Bytes → Option Bytes
   | [] => some []
-  | [a, b, 61, 61] =>
-    match b64Val a, b64Val b with
-    | some x, some y => some [UInt8.ofNat (x * 4 + y / 16)]
-    | _, _ => none
-  | [a, b, c, 61] =>
-    match b64Val a, b64Val b, b64Val c with
-    | some x, some y, some z => some [UInt8.ofNat (x * 4 + y / 16), UInt8.ofNat (y % 16 * 16 + z / 4)]
-    | _, _, _ => none
   | a :: b :: c :: d :: rest =>
-    match b64Val a, b64Val b, b64Val c, b64Val d, b64DecGroups rest with
-    | some x, some y, some z, some w, some more =>
-      some (UInt8.ofNat (x * 4 + y / 16) :: UInt8.ofNat (y % 16 * 16 + z / 4) :: UInt8.ofNat (z % 4 * 64 + w) :: more)
-    | _, _, _, _, _ => none
+    if c = 61 ∧ d = 61 ∧ rest = [] then
+      match b64Val a, b64Val b with
+      | some x, some y => some [UInt8.ofNat (x * 4 + y / 16)]
+      | _, _ => none
+    else if d = 61 ∧ rest = [] then
+      match b64Val a, b64Val b, b64Val c with
+      | some x, some y, some z => some [UInt8.ofNat (x * 4 + y / 16), UInt8.ofNat (y % 16 * 16 + z / 4)]
+      | _, _, _ => none
+    else
+      match b64Val a, b64Val b, b64Val c, b64Val d, b64DecGroups rest with
+      | some x, some y, some z, some w, some more =>
+        some (UInt8.ofNat (x * 4 + y / 16) :: UInt8.ofNat (y % 16 * 16 + z / 4) :: UInt8.ofNat (z % 4 * 64 + w) :: more)
+      | _, _, _, _, _ => none
   | _ => none
 
 /-- `base64.StdEncoding.Decode` (`none` = CorruptInputError). -/
@@ -102,11 +104,21 @@ def jsonString (s : Bytes) : Bytes := 34 :: (s.flatMap escByte ++ [34])
 
 def isAscii (s : Bytes) : Bool := s.all fun b => b.toNat < 128
 
-/-- `json.Marshal(&Manifest{…})`. -/
+/-- JSON member names of the manifest (ASCII). -/
+def kK : Bytes := [107]
+def kKW : Bytes := [107, 119]
+def kWFK : Bytes := [119, 102, 107]
+def kCPH : Bytes := [99, 112, 104]
+def kNP : Bytes := [110, 112]
+
+/-- `"key":value` -/
+def member (key val : Bytes) : Bytes := 34 :: (key ++ 34 :: 58 :: val)
+
+/-- `json.Marshal(&Manifest{…})`: `{"k":"…","kw":N,"wfk":"…","cph":N,"np":"…"}`, `k` omitted when empty. -/
 def renderManifest (m : Manifest) : Bytes :=
-  let k := if m.keyName.isEmpty then [] else strBytes "\"k\":" ++ jsonString m.keyName ++ [44]
-  [123] ++ k ++ strBytes "\"kw\":" ++ itoa m.kw ++ strBytes ",\"wfk\":" ++ jsonString (b64Enc m.wfk)
-    ++ strBytes ",\"cph\":" ++ itoa m.cph ++ strBytes ",\"np\":" ++ jsonString (b64Enc m.np) ++ [125]
+  123 :: ((if m.keyName.isEmpty then [] else member kK (jsonString m.keyName) ++ [44]) ++
+    (member kKW (itoa m.kw) ++ 44 :: (member kWFK (jsonString (b64Enc m.wfk)) ++ 44 ::
+      (member kCPH (itoa m.cph) ++ 44 :: (member kNP (jsonString (b64Enc m.np)) ++ [125])))))
 
 /-! ### json.Unmarshal (subset) -/
 
@@ -190,6 +202,15 @@ structure Fields where
   cph : Option Tok := none
   np : Option Tok := none
 
+/-- Store a member; unknown names and duplicates are outside the modelled subset. -/
+def setField (f : Fields) (key : Bytes) (v : Tok) : Except Bool Fields :=
+  if key = kK then (if f.k.isSome then .error false else .ok { f with k := some v })
+  else if key = kKW then (if f.kw.isSome then .error false else .ok { f with kw := some v })
+  else if key = kWFK then (if f.wfk.isSome then .error false else .ok { f with wfk := some v })
+  else if key = kCPH then (if f.cph.isSome then .error false else .ok { f with cph := some v })
+  else if key = kNP then (if f.np.isSome then .error false else .ok { f with np := some v })
+  else .error false
+
 def parseMembers : Nat → Bytes → Fields → Except Bool Fields
   | 0, _, _ => .error false
   | fuel + 1, s, f =>
@@ -203,14 +224,7 @@ def parseMembers : Nat → Bytes → Fields → Except Bool Fields
           match parseValue r2 with
           | .error b => .error b
           | .ok (v, r3) =>
-            let upd : Except Bool Fields :=
-              if key = strBytes "k" then (if f.k.isSome then .error false else .ok { f with k := some v })
-              else if key = strBytes "kw" then (if f.kw.isSome then .error false else .ok { f with kw := some v })
-              else if key = strBytes "wfk" then (if f.wfk.isSome then .error false else .ok { f with wfk := some v })
-              else if key = strBytes "cph" then (if f.cph.isSome then .error false else .ok { f with cph := some v })
-              else if key = strBytes "np" then (if f.np.isSome then .error false else .ok { f with np := some v })
-              else .error false
-            match upd with
+            match setField f key v with
             | .error b => .error b
             | .ok f' =>
               match r3 with
